@@ -18,6 +18,7 @@ import (
 	"path/filepath"
 	"runtime/debug"
 	"sort"
+	"strconv"
 	"strings"
 	"time"
 
@@ -34,6 +35,7 @@ type job struct {
 	PB   int    `json:"preempt_bound"`
 	EB   int    `json:"short_read_bound"`
 	Race bool   `json:"race"`
+	Role string `json:"role,omitempty"` // "server": the connection under test is the server end (default: the client end)
 }
 
 func (j job) String() string { b, _ := json.Marshal(j); return string(b) }
@@ -93,19 +95,46 @@ var (
 	payB = []byte("BBBBBBBBBBBBBBBBBBBBBB-b")
 )
 
+// payBig spans several records (20000 bytes: 2 records of 2^14 + 3616 bytes without dynamic record sizing,
+// 6 with it); every byte depends on its position so that reordered or repeated fragments are visible.
+var payBig = func() []byte {
+	b := make([]byte, 20000)
+	for i := range b {
+		b[i] = 'a' + byte((i*7+i/251)%26)
+	}
+	return b
+}()
+
 var identity = tlsx.ServerIdentity("p256")
 
-func configs(vers uint16, seed string) (*tls.Config, *tls.Config) {
-	cc, sc := tlsx.BaseConfigs(identity, "c34-"+seed)
+func configs(vers uint16, scen string) (*tls.Config, *tls.Config) {
+	cc, sc := tlsx.BaseConfigs(identity, "c34-"+scen)
 	cc.MinVersion, cc.MaxVersion = vers, vers
 	sc.MinVersion, sc.MaxVersion = vers, vers
 	cc.CurvePreferences = []tls.CurveID{tls.X25519}
 	sc.SessionTicketsDisabled = true
+	if vers == tls.VersionTLS10 {
+		// a CBC suite: every application Write of more than one byte is split 1/n-1
+		cc.CipherSuites = []uint16{tls.TLS_ECDHE_ECDSA_WITH_AES_128_CBC_SHA}
+		sc.CipherSuites = cc.CipherSuites
+	}
+	if scen == "ticket-read-write-state" {
+		// the server sends a NewSessionTicket after its Finished; the client processes it inside its first Read
+		sc.SessionTicketsDisabled = false
+		cc.ClientSessionCache = tls.NewLRUClientSessionCache(4)
+	}
 	return cc, sc
 }
 
-// scenario bodies. c = connection under test (client), s = peer (server).
-type scenFn func(c, s *tls.Conn, o *obs)
+// env of one execution. c = connection under test, s = its peer (each on its own end of the pipe).
+type env struct {
+	c, s   *tls.Conn
+	sp     *vsched.PipeConn // the peer's transport (closing it = the peer vanishing without close_notify)
+	cc, sc *tls.Config
+	o      *obs
+}
+
+type scenFn func(x *env)
 
 func spawn(wg *vsched.WaitGroup, f func()) {
 	wg.Add(1)
@@ -136,7 +165,8 @@ func peerReadAll(s *tls.Conn, o *obs) {
 
 var scenarios = map[string]scenFn{
 	// S1: two concurrent writers; the peer must see both payloads whole, in either order.
-	"write-write": func(c, s *tls.Conn, o *obs) {
+	"write-write": func(x *env) {
+		c, s, o := x.c, x.s, x.o
 		if !handshakeQuietly(c, s, o) {
 			return
 		}
@@ -149,7 +179,8 @@ var scenarios = map[string]scenFn{
 		pw.Wait()
 	},
 	// S2: reader and writer on the same connection while the peer echoes.
-	"read-write": func(c, s *tls.Conn, o *obs) {
+	"read-write": func(x *env) {
+		c, s, o := x.c, x.s, x.o
 		if !handshakeQuietly(c, s, o) {
 			return
 		}
@@ -174,7 +205,8 @@ var scenarios = map[string]scenFn{
 		s.Close()
 	},
 	// S3: Close while a Read is pending.
-	"read-close": func(c, s *tls.Conn, o *obs) {
+	"read-close": func(x *env) {
+		c, s, o := x.c, x.s, x.o
 		if !handshakeQuietly(c, s, o) {
 			return
 		}
@@ -190,7 +222,8 @@ var scenarios = map[string]scenFn{
 		pw.Wait()
 	},
 	// S4: concurrent Handshake calls and ConnectionState on a fresh connection.
-	"handshake-handshake-state": func(c, s *tls.Conn, o *obs) {
+	"handshake-handshake-state": func(x *env) {
+		c, s, o := x.c, x.s, x.o
 		var wg, pw vsched.WaitGroup
 		spawn(&pw, func() { o.put("peer.handshake", errs(s.Handshake())) })
 		spawn(&wg, func() { o.put("hs1", errs(c.Handshake())) })
@@ -204,7 +237,8 @@ var scenarios = map[string]scenFn{
 		s.Close()
 	},
 	// S5: Write racing with Close (the activeCall interlock).
-	"write-close": func(c, s *tls.Conn, o *obs) {
+	"write-close": func(x *env) {
+		c, s, o := x.c, x.s, x.o
 		if !handshakeQuietly(c, s, o) {
 			return
 		}
@@ -216,7 +250,8 @@ var scenarios = map[string]scenFn{
 		pw.Wait()
 	},
 	// S6: a pending Read must return when a deadline in the past is set.
-	"read-deadline": func(c, s *tls.Conn, o *obs) {
+	"read-deadline": func(x *env) {
+		c, s, o := x.c, x.s, x.o
 		if !handshakeQuietly(c, s, o) {
 			return
 		}
@@ -232,7 +267,8 @@ var scenarios = map[string]scenFn{
 		s.Close()
 	},
 	// S7: CloseWrite racing with Write and ConnectionState.
-	"closewrite-write-state": func(c, s *tls.Conn, o *obs) {
+	"closewrite-write-state": func(x *env) {
+		c, s, o := x.c, x.s, x.o
 		if !handshakeQuietly(c, s, o) {
 			return
 		}
@@ -246,7 +282,8 @@ var scenarios = map[string]scenFn{
 		c.Close()
 	},
 	// S8 (TLS 1.3): the peer requests a key update while the connection reads and writes.
-	"keyupdate-read-write": func(c, s *tls.Conn, o *obs) {
+	"keyupdate-read-write": func(x *env) {
+		c, s, o := x.c, x.s, x.o
 		if !handshakeQuietly(c, s, o) {
 			return
 		}
@@ -270,7 +307,8 @@ var scenarios = map[string]scenFn{
 		pw.Wait()
 	},
 	// S10: two concurrent readers; each record goes whole to exactly one of them.
-	"read-read": func(c, s *tls.Conn, o *obs) {
+	"read-read": func(x *env) {
+		c, s, o := x.c, x.s, x.o
 		if !handshakeQuietly(c, s, o) {
 			return
 		}
@@ -293,6 +331,250 @@ var scenarios = map[string]scenFn{
 		c.Close()
 		s.Close()
 	},
+
+	// ---- implicit handshake gating: calls on a FRESH connection, the peer handshakes on its own thread ----
+
+	// S11: Write, Read and ConnectionState without a prior Handshake call: each of Read/Write runs the
+	// handshake implicitly; exactly one of them performs it, the others wait on the handshake mutex.
+	"fresh-write-read-state": func(x *env) {
+		c, s, o := x.c, x.s, x.o
+		var wg, pw vsched.WaitGroup
+		spawn(&pw, func() {
+			o.put("peer.handshake", errs(s.Handshake()))
+			buf := make([]byte, 64)
+			n, err := io.ReadFull(s, buf[:len(payA)])
+			o.setPeer(buf[:n])
+			o.put("peer.read", errs(err))
+			_, err = s.Write([]byte("pong"))
+			o.put("peer.write", errs(err))
+		})
+		spawn(&wg, func() { _, err := c.Write(payA); o.put("writeA", errs(err)) })
+		spawn(&wg, func() {
+			buf := make([]byte, 16)
+			n, err := io.ReadFull(c, buf[:4])
+			o.put("read", string(buf[:n])+"/"+errs(err))
+		})
+		spawn(&wg, func() { st := c.ConnectionState(); o.put("state", fmt.Sprintf("complete=%v", st.HandshakeComplete)) })
+		wg.Wait()
+		pw.Wait()
+		st := c.ConnectionState()
+		o.put("final", fmt.Sprintf("complete=%v vers=%x", st.HandshakeComplete, st.Version))
+		c.Close()
+		s.Close()
+	},
+	// S11b (thorough tier only, one more preemption): Read || Write on a fresh connection.
+	"fresh-read-write": func(x *env) {
+		c, s, o := x.c, x.s, x.o
+		var wg, pw vsched.WaitGroup
+		spawn(&pw, func() {
+			o.put("peer.handshake", errs(s.Handshake()))
+			buf := make([]byte, 64)
+			n, err := io.ReadFull(s, buf[:len(payA)])
+			o.setPeer(buf[:n])
+			o.put("peer.read", errs(err))
+			_, err = s.Write([]byte("pong"))
+			o.put("peer.write", errs(err))
+		})
+		spawn(&wg, func() { _, err := c.Write(payA); o.put("writeA", errs(err)) })
+		spawn(&wg, func() {
+			buf := make([]byte, 16)
+			n, err := io.ReadFull(c, buf[:4])
+			o.put("read", string(buf[:n])+"/"+errs(err))
+		})
+		wg.Wait()
+		pw.Wait()
+		st := c.ConnectionState()
+		o.put("final", fmt.Sprintf("complete=%v vers=%x", st.HandshakeComplete, st.Version))
+		c.Close()
+		s.Close()
+	},
+	// S12: Write (implicit handshake) racing with Close on a fresh connection.
+	"fresh-write-close": func(x *env) {
+		c, s, o := x.c, x.s, x.o
+		var wg, pw vsched.WaitGroup
+		spawn(&pw, func() {
+			o.put("peer.handshake", errs(s.Handshake()))
+			peerReadAll(s, o)
+		})
+		spawn(&wg, func() { _, err := c.Write(payA); o.put("writeA", errs(err)) })
+		spawn(&wg, func() { o.put("close", errs(c.Close())) })
+		wg.Wait()
+		pw.Wait()
+	},
+	// S13: Close racing with an explicit Handshake on a fresh connection.
+	"fresh-close-handshake": func(x *env) {
+		c, s, o := x.c, x.s, x.o
+		var wg, pw vsched.WaitGroup
+		spawn(&pw, func() {
+			o.put("peer.handshake", errs(s.Handshake()))
+			s.Close()
+		})
+		spawn(&wg, func() { o.put("hs", errs(c.Handshake())) })
+		spawn(&wg, func() { o.put("close", errs(c.Close())) })
+		wg.Wait()
+		pw.Wait()
+		st := c.ConnectionState()
+		o.put("final", fmt.Sprintf("complete=%v", st.HandshakeComplete))
+	},
+
+	// ---- the PEER closes while Read and Write are pending ----
+
+	// S14: the peer closes properly (close_notify, then the transport).
+	"peerclose-read-write": func(x *env) {
+		c, s, o := x.c, x.s, x.o
+		if !handshakeQuietly(c, s, o) {
+			return
+		}
+		var wg, pw vsched.WaitGroup
+		spawn(&pw, func() { o.put("peer.close", errs(s.Close())) })
+		spawn(&wg, func() {
+			buf := make([]byte, 16)
+			n, err := c.Read(buf)
+			o.put("read", fmt.Sprintf("%d/%s", n, errs(err)))
+		})
+		spawn(&wg, func() { _, err := c.Write(payA); o.put("writeA", errs(err)) })
+		wg.Wait()
+		pw.Wait()
+		o.put("close", errs(c.Close()))
+	},
+	// S15: the peer vanishes: its transport is closed without a close_notify.
+	"peerdrop-read-write": func(x *env) {
+		c, s, o := x.c, x.s, x.o
+		if !handshakeQuietly(c, s, o) {
+			return
+		}
+		var wg, pw vsched.WaitGroup
+		spawn(&pw, func() { o.put("peer.drop", errs(x.sp.Close())) })
+		spawn(&wg, func() {
+			buf := make([]byte, 16)
+			n, err := c.Read(buf)
+			o.put("read", fmt.Sprintf("%d/%s", n, errs(err)))
+		})
+		spawn(&wg, func() { _, err := c.Write(payA); o.put("writeA", errs(err)) })
+		wg.Wait()
+		pw.Wait()
+		o.put("close", errs(c.Close()))
+	},
+
+	// ---- byte stream with multi-record writes ----
+
+	// S16: a 20000-byte Write (several records) racing with a short one: each must arrive contiguous.
+	"write-write-big": func(x *env) {
+		c, s, o := x.c, x.s, x.o
+		if !handshakeQuietly(c, s, o) {
+			return
+		}
+		var wg, pw vsched.WaitGroup
+		spawn(&pw, func() { peerReadAll(s, o) })
+		spawn(&wg, func() { n, err := c.Write(payBig); o.put("writeBig", fmt.Sprintf("%d/%s", n, errs(err))) })
+		spawn(&wg, func() { _, err := c.Write(payB); o.put("writeB", errs(err)) })
+		wg.Wait()
+		c.Close()
+		pw.Wait()
+	},
+
+	// ---- further call pairs ----
+
+	// S17: two concurrent Close calls.
+	"close-close": func(x *env) {
+		c, s, o := x.c, x.s, x.o
+		if !handshakeQuietly(c, s, o) {
+			return
+		}
+		var wg, pw vsched.WaitGroup
+		spawn(&pw, func() { peerReadAll(s, o) })
+		spawn(&wg, func() { o.put("close1", errs(c.Close())) })
+		spawn(&wg, func() { o.put("close2", errs(c.Close())) })
+		wg.Wait()
+		pw.Wait()
+	},
+	// S18: CloseWrite racing with a pending Read: the read side stays usable (half-close).
+	"closewrite-read": func(x *env) {
+		c, s, o := x.c, x.s, x.o
+		if !handshakeQuietly(c, s, o) {
+			return
+		}
+		var wg, pw vsched.WaitGroup
+		spawn(&pw, func() {
+			b, err := io.ReadAll(s) // ends at the close_notify of CloseWrite
+			o.setPeer(b)
+			o.put("peer.read", errs(err))
+			_, err = s.Write([]byte("pong"))
+			o.put("peer.write", errs(err))
+		})
+		spawn(&wg, func() { o.put("closewrite", errs(c.CloseWrite())) })
+		spawn(&wg, func() {
+			buf := make([]byte, 16)
+			n, err := io.ReadFull(c, buf[:4])
+			o.put("read", string(buf[:n])+"/"+errs(err))
+		})
+		wg.Wait()
+		pw.Wait()
+		c.Close()
+		s.Close()
+	},
+	// S19: SetDeadline racing with Write (the model transport has no write deadline: only the read side expires).
+	"setdeadline-write": func(x *env) {
+		c, s, o := x.c, x.s, x.o
+		if !handshakeQuietly(c, s, o) {
+			return
+		}
+		var wg, pw vsched.WaitGroup
+		spawn(&pw, func() { peerReadAll(s, o) })
+		spawn(&wg, func() { o.put("deadline", errs(c.SetDeadline(time.Unix(1, 0)))) })
+		spawn(&wg, func() { _, err := c.Write(payA); o.put("writeA", errs(err)) })
+		wg.Wait()
+		c.Close()
+		pw.Wait()
+	},
+	// S20: SetReadDeadline and SetWriteDeadline racing with each other and with a pending Read; a Write
+	// afterwards must still go through (the write deadline set is in the future).
+	"deadlines-read": func(x *env) {
+		c, s, o := x.c, x.s, x.o
+		if !handshakeQuietly(c, s, o) {
+			return
+		}
+		var wg, pw vsched.WaitGroup
+		spawn(&pw, func() { peerReadAll(s, o) })
+		spawn(&wg, func() { o.put("rdeadline", errs(c.SetReadDeadline(time.Unix(1, 0)))) })
+		spawn(&wg, func() { o.put("wdeadline", errs(c.SetWriteDeadline(vsched.VNow().Add(time.Hour)))) })
+		spawn(&wg, func() {
+			buf := make([]byte, 16)
+			n, err := c.Read(buf)
+			o.put("read", fmt.Sprintf("%d/%s", n, errs(err)))
+		})
+		wg.Wait()
+		_, err := c.Write(payA)
+		o.put("writeA", errs(err))
+		c.Close()
+		pw.Wait()
+	},
+	// S21 (TLS 1.3, tickets enabled): the NewSessionTicket the server sent after its Finished is processed
+	// inside the client's Read, concurrently with Write and ConnectionState.
+	"ticket-read-write-state": func(x *env) {
+		c, s, o := x.c, x.s, x.o
+		if !handshakeQuietly(c, s, o) {
+			return
+		}
+		var wg, pw vsched.WaitGroup
+		spawn(&pw, func() {
+			_, err := s.Write([]byte("pong"))
+			o.put("peer.write", errs(err))
+			peerReadAll(s, o)
+		})
+		spawn(&wg, func() {
+			buf := make([]byte, 16)
+			n, err := io.ReadFull(c, buf[:4])
+			o.put("read", string(buf[:n])+"/"+errs(err))
+		})
+		spawn(&wg, func() { _, err := c.Write(payA); o.put("writeA", errs(err)) })
+		spawn(&wg, func() { st := c.ConnectionState(); o.put("state", fmt.Sprintf("complete=%v", st.HandshakeComplete)) })
+		wg.Wait()
+		_, cached := x.cc.ClientSessionCache.Get("srv.example")
+		o.put("ticket", fmt.Sprintf("stored=%v", cached))
+		c.Close()
+		pw.Wait()
+	},
 }
 
 func runOnce(j job, prefix []int) (vsched.Result, *obs) {
@@ -301,9 +583,13 @@ func runOnce(j job, prefix []int) (vsched.Result, *obs) {
 		cp, sp, n := vsched.NewPipe()
 		n.ShortReads = j.EB > 0
 		cc, sc := configs(j.Vers, j.Scen)
-		c := tls.Client(cp, cc)
-		s := tls.Server(sp, sc)
-		scenarios[j.Scen](c, s, o)
+		x := &env{cc: cc, sc: sc, sp: sp, o: o}
+		if j.Role == "server" {
+			x.c, x.s = tls.Server(cp, sc), tls.Client(sp, cc)
+		} else {
+			x.c, x.s = tls.Client(cp, cc), tls.Server(sp, sc)
+		}
+		scenarios[j.Scen](x)
 		o.put("done", "1")
 	})
 	return res, o
@@ -408,8 +694,112 @@ func judge(j job, res vsched.Result, o *obs) (string, string) {
 		if !((a == "aaaa/nil" && b == "bbbb/nil") || (a == "bbbb/nil" && b == "aaaa/nil")) {
 			return "two concurrent readers did not each receive one whole record", a + " | " + b
 		}
+	case "fresh-write-read-state", "fresh-read-write":
+		if g("peer.handshake") != "nil" {
+			return "the peer's handshake failed although nobody closed the connection", g("peer.handshake")
+		}
+		if g("writeA") != "nil" || !bytes.Equal(o.peer, payA) {
+			return "payload written on a fresh connection (implicit handshake) did not arrive intact", fmt.Sprintf("%s %q", g("writeA"), o.peer)
+		}
+		if g("read") != "pong/nil" {
+			return "reader on a fresh connection (implicit handshake) did not receive the peer's reply", g("read")
+		}
+		if !strings.HasPrefix(g("final"), "complete=true") {
+			return "handshake not complete after Read and Write returned nil", g("final")
+		}
+	case "fresh-write-close":
+		w := g("writeA")
+		if w == "nil" {
+			if !bytes.Equal(o.peer, payA) {
+				return "Write returned nil but the peer did not receive the payload intact", fmt.Sprintf("%q", o.peer)
+			}
+		} else if len(o.peer) != 0 && !bytes.Equal(o.peer, payA) {
+			return "peer received a partial or altered payload", fmt.Sprintf("%q", o.peer)
+		}
+		if g("close") != "nil" && !strings.HasPrefix(g("close"), "err:") {
+			return "Close returned something unexpected", g("close")
+		}
+	case "fresh-close-handshake":
+		if g("hs") == "nil" && g("final") != "complete=true" {
+			return "Handshake returned nil but the connection does not report a completed handshake", g("final")
+		}
+		if g("hs") == "" || g("close") == "" {
+			return "Handshake or Close did not return", g("hs") + " / " + g("close")
+		}
+	case "peerclose-read-write", "peerdrop-read-write":
+		// the peer never writes application data: a pending Read must come back with an error (EOF after
+		// close_notify, an error after a dropped transport), a pending Write with nil or an error. That both
+		// DO come back is checked by the deadlock / livelock / "body did not finish" verdicts above.
+		if r := g("read"); !strings.HasPrefix(r, "0/") || r == "0/nil" {
+			return "Read returned data or no error although the peer closed without ever writing", r
+		}
+		if w := g("writeA"); w != "nil" && !strings.HasPrefix(w, "err:") && w != "EOF" {
+			return "Write returned something unexpected after the peer closed", w
+		}
+	case "write-write-big":
+		if g("writeBig") != fmt.Sprintf("%d/nil", len(payBig)) || g("writeB") != "nil" {
+			return "Write failed although nobody closed the connection", g("writeBig") + " / " + g("writeB")
+		}
+		if !interleavingOf(o.peer, payBig, payB) {
+			return "peer did not receive the two written payloads whole, each exactly once", describeStream(o.peer)
+		}
+	case "close-close":
+		a, b := g("close1"), g("close2")
+		for _, r := range []string{a, b} {
+			if r != "nil" && !strings.HasPrefix(r, "err:") {
+				return "Close returned something unexpected", r
+			}
+		}
+		if a != "nil" && b != "nil" {
+			return "both concurrent Close calls failed", a + " | " + b
+		}
+		if len(o.peer) != 0 {
+			return "peer received application data although none was written", fmt.Sprintf("%q", trunc(o.peer))
+		}
+	case "closewrite-read":
+		if g("closewrite") != "nil" {
+			return "CloseWrite failed after a completed handshake", g("closewrite")
+		}
+		if len(o.peer) != 0 {
+			return "peer received application data although none was written", fmt.Sprintf("%q", trunc(o.peer))
+		}
+		if g("peer.write") == "nil" && g("read") != "pong/nil" {
+			return "Read did not deliver the data the peer sent after CloseWrite (half-close)", g("read")
+		}
+	case "setdeadline-write":
+		w := g("writeA")
+		if w == "nil" && !bytes.Equal(o.peer, payA) {
+			return "Write returned nil but the peer did not receive the payload intact", fmt.Sprintf("%q", o.peer)
+		}
+		if w != "nil" && len(o.peer) != 0 && !bytes.Equal(o.peer, payA) {
+			return "peer received a partial or altered payload", fmt.Sprintf("%q", o.peer)
+		}
+		if g("deadline") != "nil" {
+			return "SetDeadline failed", g("deadline")
+		}
+	case "deadlines-read":
+		if r := g("read"); r != "0/timeout" {
+			return "pending Read did not return a timeout after the read deadline expired", r
+		}
+		if g("writeA") != "nil" || !bytes.Equal(o.peer, payA) {
+			return "a Write under an unexpired write deadline did not arrive intact", fmt.Sprintf("%s %q", g("writeA"), o.peer)
+		}
+	case "ticket-read-write-state":
+		if g("read") != "pong/nil" {
+			return "data sent after the NewSessionTicket was not received intact", g("read")
+		}
+		if g("writeA") != "nil" || !bytes.Equal(o.peer, payA) {
+			return "data written while the NewSessionTicket was processed did not arrive intact", fmt.Sprintf("%s %q", g("writeA"), o.peer)
+		}
 	}
 	return "", ""
+}
+
+// describeStream summarises a long received stream for a witness: length and the runs of it that
+// match the big payload / the short payload at the right offsets.
+func describeStream(got []byte) string {
+	at := bytes.Index(got, payB)
+	return fmt.Sprintf("len=%d (want %d) short payload at offset %d head=%q", len(got), len(payBig)+len(payB), at, trunc(got))
 }
 
 func canary(jobs string) {
@@ -471,9 +861,9 @@ func worker(js string) {
 		repo = "/repo"
 	}
 	seen := map[string]bool{}
-	deadline := time.Now().Add(100 * time.Second)
+	deadline := time.Now().Add(scaled(100 * time.Second))
 	if os.Getenv("VERIF_TIER") == "thorough" {
-		deadline = time.Now().Add(20 * time.Minute)
+		deadline = time.Now().Add(scaled(20 * time.Minute))
 	}
 	for b := 0; b <= j.PB; b++ {
 		st := vx.Explore(vx.Options{PreemptBound: b, EnvBound: j.EB, Deadline: deadline, RaceLog: raceLog},
@@ -553,6 +943,20 @@ func worker(js string) {
 	fmt.Println(string(b))
 }
 
+func clip(s string, n int) string {
+	if len(s) > n {
+		return s[:n]
+	}
+	return s
+}
+
+func repoDir() string {
+	if r := os.Getenv("VERIF_REPO_DIR"); r != "" {
+		return r
+	}
+	return "/repo"
+}
+
 func trunc(b []byte) string {
 	if len(b) > 24 {
 		return string(b[:24]) + "…"
@@ -560,34 +964,94 @@ func trunc(b []byte) string {
 	return string(b)
 }
 
+// newScenarios are the scenarios added when the check was strengthened; they run at preemption bound 1
+// in the quick tier (2 in thorough), the older ones at 2 (3).
+var newScenarios = []string{"fresh-write-read-state", "fresh-write-close", "fresh-close-handshake", "peerclose-read-write", "peerdrop-read-write",
+	"write-write-big", "close-close", "closewrite-read", "setdeadline-write", "deadlines-read", "ticket-read-write-state", "fresh-read-write"}
+
+// serverRole lists the scenarios that are also run with the SERVER end as the connection under test
+// (value true: already in the quick tier; false: thorough tier only).
+var serverRole = map[string]bool{"fresh-write-close": true, "peerclose-read-write": true, "write-write-big": true, "close-close": true,
+	"fresh-write-read-state": false, "read-write": false, "read-close": false, "peerdrop-read-write": false, "closewrite-read": false}
+
+func exploresHandshake(n string) bool {
+	return n == "handshake-handshake-state" || strings.HasPrefix(n, "fresh-")
+}
+
 func jobsFor(thorough, race bool) []job {
 	var out []job
 	names := []string{"write-write", "read-write", "read-close", "handshake-handshake-state", "write-close", "read-deadline", "closewrite-write-state", "keyupdate-read-write", "read-read"}
+	isNew := map[string]bool{}
+	for _, n := range newScenarios {
+		isNew[n] = true
+	}
+	names = append(names, newScenarios...)
+	pbFor := func(n string) int {
+		pb := 2
+		if n == "handshake-handshake-state" || n == "closewrite-write-state" || isNew[n] {
+			pb = 1 // the whole handshake is explored / four threads: far more schedules; new scenarios: see above
+		}
+		if race {
+			pb = 1
+			if exploresHandshake(n) {
+				pb = 0
+			}
+		}
+		if thorough && n != "fresh-write-read-state" { // 50k-76k schedules at bound 1: bound 2 is out of reach; fresh-read-write goes there instead
+			pb++
+		}
+		return pb
+	}
 	for _, v := range []uint16{tls.VersionTLS12, tls.VersionTLS13} {
 		for _, n := range names {
-			if n == "keyupdate-read-write" && v != tls.VersionTLS13 {
+			if (n == "keyupdate-read-write" || n == "ticket-read-write-state") && v != tls.VersionTLS13 {
 				continue
 			}
-			pb := 2
-			if n == "handshake-handshake-state" || n == "closewrite-write-state" {
-				pb = 1 // the whole handshake is explored / four threads: far more schedules
+			if n == "fresh-read-write" && !thorough {
+				continue
 			}
-			if race {
-				pb = 1
-				if n == "handshake-handshake-state" {
-					pb = 0
-				}
-			}
-			if thorough {
-				pb++
-			}
+			pb := pbFor(n)
 			out = append(out, job{Scen: n, Vers: v, PB: pb, Race: race})
-			if thorough && !race && n != "handshake-handshake-state" {
+			if thorough && !race && !exploresHandshake(n) && n != "write-write-big" {
 				out = append(out, job{Scen: n, Vers: v, PB: pb - 1, EB: 1})
+			}
+			if inQuick, ok := serverRole[n]; ok && (thorough || inQuick) {
+				out = append(out, job{Scen: n, Vers: v, PB: pb, Race: race, Role: "server"})
 			}
 		}
 	}
+	// TLS 1.0 with a CBC suite: every Write is split 1/n-1 into two records under the same hold of the out lock
+	// (a new configuration: bound 1 in quick, 2 in thorough, like the new scenarios)
+	out = append(out, job{Scen: "write-write", Vers: tls.VersionTLS10, PB: pbFor("write-write-big"), Race: race})
+	if thorough {
+		out = append(out, job{Scen: "write-write-big", Vers: tls.VersionTLS10, PB: pbFor("write-write-big"), Race: race})
+		out = append(out, job{Scen: "write-close", Vers: tls.VersionTLS10, PB: pbFor("write-write-big"), Race: race})
+	}
+	// longest first, so that the long jobs do not start last (measured execution counts, quick tier)
+	weight := func(j job) int {
+		switch {
+		case j.Scen == "keyupdate-read-write":
+			return 9
+		case exploresHandshake(j.Scen):
+			return 8
+		case j.Scen == "write-write" || j.Scen == "write-write-big":
+			return 7
+		case !isNew[j.Scen]:
+			return 5
+		}
+		return 1
+	}
+	sort.SliceStable(out, func(a, b int) bool { return weight(out[a]) > weight(out[b]) })
 	return out
+}
+
+// scaled stretches the wall-clock budgets (which only ever turn a run into "incomplete", never into a
+// verdict) by VERIF_TIME_SCALE, for runs on a machine that is shared and loaded.
+func scaled(d time.Duration) time.Duration {
+	if f, err := strconv.ParseFloat(os.Getenv("VERIF_TIME_SCALE"), 64); err == nil && f >= 1 && f <= 100 {
+		return time.Duration(float64(d) * f)
+	}
+	return d
 }
 
 func main() {
@@ -599,11 +1063,18 @@ func main() {
 	}
 	ev.Main("C34", "model_checking", func(c *ev.Ctx) {
 		thorough := !c.Quick()
-		c.Rule("stateless model checking of two real tls.Conn over an in-memory pipe under a cooperative scheduler: per scenario (9 scenarios x TLS 1.2/1.3) every interleaving of the scenario threads with <= PB preemptions over the scheduling points {mutex lock/unlock, atomic operation, pipe read/write/close/deadline, thread start/exit} (thorough: +1 preemption, and short 1-byte transport reads as an environment deviation); a second pass in a -race build lets ThreadSanitizer judge each explored schedule. states = executions.")
+		c.Rule("stateless model checking of two real tls.Conn over an in-memory pipe under a cooperative scheduler: per scenario every interleaving of the scenario threads with <= PB preemptions over the scheduling points {mutex lock/unlock, atomic operation, pipe read/write/close/deadline, thread start/exit}; a second pass in a -race build lets ThreadSanitizer judge each explored schedule. " +
+			"Scenarios (each at TLS 1.2 and 1.3 unless noted; PB in the quick tier in brackets, thorough +1): after a quiet handshake: write||write [2], read||write [2], read||close [2], write||close [2], read||SetDeadline [2], CloseWrite||write||ConnectionState [1], peer KeyUpdate during read||write (1.3) [2], read||read [2], " +
+			"peer Close (close_notify) during pending read||write [1], peer transport dropped without close_notify during pending read||write [1], 20000-byte write (several records) || short write [1], write||write at TLS 1.0 with a CBC suite (1/n-1 record split) [1], close||close [1], CloseWrite||read then peer data (half-close) [1], SetDeadline||write [1], SetReadDeadline||SetWriteDeadline||read [1], NewSessionTicket processing inside read||write||ConnectionState (1.3, tickets enabled) [1]; " +
+			"on a FRESH connection (the handshake itself is explored, the peer handshakes on its own thread): handshake||handshake||ConnectionState [1], write||read||ConnectionState with implicit handshakes [1; thorough stays at 1 and adds read||write at 2], write||close [1], close||handshake [1]. " +
+			"The connection under test is the client end; write||close (fresh), peer-close, big write and close||close are repeated with the SERVER end under test (thorough: also fresh write||read||state, read||write, read||close, peer drop, CloseWrite||read). Thorough additionally offers 1-byte transport reads as an environment deviation for the scenarios with a quiet handshake. " +
+			"Race pass: PB 1 (0 for the fresh-connection scenarios), thorough +1. Oracle per execution: no panic, no deadlock, no livelock (step horizon), every call returns, each writer's bytes arrive contiguous, unmodified and exactly once (or not at all when the write was cut by a close), readers get whole records, a pending read/write returns once the peer closed or the deadline expired. A worker process that dies with a Go runtime fatal error / unrecovered panic in the code under test is a violation (worker crash), not an incomplete run. states = executions.")
 		c.Assume("package tls is compiled from copies whose sync and sync/atomic imports point to the vsched shims; no other source change",
-			"the initial handshake of all scenarios except handshake-handshake-state is run without exploring its choice points",
+			"the initial handshake of the scenarios that are not about a fresh connection is run without exploring its choice points",
 			"the scheduler hand-off is invisible to ThreadSanitizer, so a race report concerns only the program's own synchronisation",
-			"HandshakeContext with a cancellable context (interrupter goroutine + select) is outside the scheduler model and not explored")
+			"HandshakeContext with a cancellable context (interrupter goroutine + select) is outside the scheduler model and not explored",
+			"the model transport never blocks a write and has no write deadline: SetWriteDeadline/SetDeadline are explored for races and for their effect on reads only",
+			"a loop in the code under test that contains no scheduling point cannot be interrupted by the cooperative scheduler: it ends as a killed worker (incomplete), not as a verdict")
 		self, _ := os.Executable()
 		raceBin := os.Getenv("C34_RACE_BIN")
 		if c.Replay != nil {
@@ -627,13 +1098,22 @@ func main() {
 			fmt.Println("replayed: choice points", len(r1.Points), "steps", r1.Steps, "deadlock", r1.Deadlock, o1.key[:o1.n], o1.val[:o1.n])
 			return
 		}
-		perJob := 140 * time.Second
+		perJob := scaled(140 * time.Second)
 		if thorough {
-			perJob = 24 * time.Minute
+			perJob = scaled(24 * time.Minute)
 		}
 		merge := func(outs []vx.WorkerOut, tag string) {
 			for _, o := range outs {
 				if o.Broken != "" {
+					// a worker that died without a result: a crash of the code under test under some schedule is a
+					// verdict (the job is the witness); a kill on timeout / out of memory says nothing (incomplete)
+					if cls := vx.CrashClass(o.Stderr, repoDir()); cls != "" {
+						var j job
+						json.Unmarshal([]byte(o.Job), &j)
+						c.Violation("worker crash: "+cls, map[string]any{"job": j, "schedule": []int{}, "pass": tag, "stderr": clip(o.Stderr, 1500)})
+						c.Outcome(tag+" worker crashed: "+cls, 1)
+						continue
+					}
 					c.Incomplete(tag + " worker " + o.Job + ": " + o.Broken)
 					continue
 				}
